@@ -276,7 +276,36 @@ class EscCutMixin:
             self.chunker = EscChunker(device, policy)
 
 
-class ScriptedTransport(EscCutMixin, LatencyMixin, OnceFaultMixin, simdevice.ScriptedTransport):
+OPEN_EXC = ("ScrapliAuthenticationFailed", "ScrapliConnectionNotOpened", "ScrapliConnectionError", "ScrapliTimeout", "OSError",
+            "ConnectionRefusedError")
+
+
+class OpenFaultMixin:
+    """fault {"open_exc": exception class name, "open_fails": k}: the first k (default: all) open() calls of the transport fail with
+    that exception — what a real transport does when the device refuses the credentials (ScrapliAuthenticationFailed from the ssh
+    transports), refuses / never answers the connection (ScrapliConnectionNotOpened, OSError, ScrapliTimeout)"""
+
+    def _open_fault(self):
+        name = self.fault.get("open_exc")
+        if not name:
+            return
+        self._nopen = getattr(self, "_nopen", 0) + 1
+        k = self.fault.get("open_fails")
+        if k is not None and self._nopen > k:
+            return
+        import builtins
+
+        import scrapli.exceptions as X
+        if name not in OPEN_EXC:
+            raise ValueError("unknown open_exc %r" % (name,))
+        raise (getattr(X, name, None) or getattr(builtins, name))("open fault %s" % name)
+
+
+class ScriptedTransport(EscCutMixin, LatencyMixin, OnceFaultMixin, OpenFaultMixin, simdevice.ScriptedTransport):
+    def open(self):
+        self._open_fault()
+        super().open()
+
     def read(self):
         m = self._due()
         while m is not None:
@@ -290,7 +319,11 @@ class ScriptedTransport(EscCutMixin, LatencyMixin, OnceFaultMixin, simdevice.Scr
             raise
 
 
-class AsyncScriptedTransport(EscCutMixin, LatencyMixin, OnceFaultMixin, simdevice.AsyncScriptedTransport):
+class AsyncScriptedTransport(EscCutMixin, LatencyMixin, OnceFaultMixin, OpenFaultMixin, simdevice.AsyncScriptedTransport):
+    async def open(self):
+        self._open_fault()
+        await super().open()
+
     async def read(self):
         m = self._due()
         while m is not None:
@@ -313,8 +346,14 @@ class DialogDevice(SimDevice):
     a refused answer prints `abort_out` and the prompt.  Whatever is typed after that is an ordinary line.
     Written from the vendors' CLI behaviour (clear counters / reload / copy ... dialogues), independent of scrapli."""
 
-    def __init__(self, *a, dialogs=None, latency=None, auth_attempts=None, auth_hang=None, mute=(), **kw):
+    def __init__(self, *a, dialogs=None, latency=None, auth_attempts=None, auth_hang=None, mute=(), login=None, **kw):
         super().__init__(*a, **kw)
+        # in-band login (round 9, the with-block family): login = {"password": the right one, "hang": "user" | "password" | None}.
+        # The device asks "login: " / "Password: " (no echo) before it prints its first prompt; a wrong password is answered with
+        # "Login incorrect" and a new "login: " for as long as the client goes on; with "hang" it prints nothing more after
+        # the user name / the password was typed (its AAA server does not answer).
+        self.login = dict(login) if login else None
+        self.login_stage = None           # "user" | "password" | None (logged in / no login)
         # error-path behaviours (the "errors" family): a password dialogue that gives up after 1 / 2 / 3 (default) wrong
         # attempts, or that hangs (prints nothing more, e.g. its AAA server does not answer) after a wrong / after any
         # password; lines after which the device goes silent for good (mode "*": in any mode)
@@ -349,7 +388,36 @@ class DialogDevice(SimDevice):
         info = st.get("info", "").encode("latin-1")
         self._emit(self.nl + (info + self.nl if info else b"") + st["q"].encode("latin-1"))
 
+    def start(self, motd=b""):
+        if not self.login:
+            return super().start(motd)
+        self.login_stage = "user"
+        self._emit(motd + b"login: ")
+
+    def _login_return(self):
+        raw = bytes(self.line)
+        self.line = bytearray()
+        self.hidden_lines.append(raw)
+        hang = self.login.get("hang")
+        if hang == self.login_stage:
+            self.silent_after = min(len(self.plain), self.silent_after if self.silent_after is not None else len(self.plain))
+            return
+        if self.login_stage == "user":
+            self.login_user = raw
+            self.login_stage, self.dialog = "password", ("login", 0)       # not None: no echo
+            self._emit(self.nl + b"Password: ")
+            return
+        self.dialog = None
+        if raw.decode("latin-1") == self.login.get("password") and self.login_user.decode("latin-1") == self.user:
+            self.login_stage = None
+            self._emit(self.nl + self.prompt())
+        else:
+            self.login_stage = "user"
+            self._emit(self.nl + b"Login incorrect" + self.nl + self.nl + b"login: ")
+
     def _return(self):
+        if self.login_stage is not None:
+            return self._login_return()
         if self.dlg is None:
             line = bytes(self.line).decode("latin-1").strip()
             if self.dialog is None and self.latency.get(line):
@@ -396,7 +464,7 @@ def build(sc, stack):
     kind = sc["kind"]
     plat = "cisco_iosxe" if kind == "network" else kind
     dev = DialogDevice(plat, dialogs=d.get("dialogs"), latency=d.get("latency"), auth_attempts=d.get("auth_attempts"),
-                       auth_hang=d.get("auth_hang"), mute=d.get("mute", ()), host=d.get("host", "router1"), user=d.get("user", "admin"), login_mode=d.get("login_mode"),
+                       auth_hang=d.get("auth_hang"), mute=d.get("mute", ()), login=d.get("login"), host=d.get("host", "router1"), user=d.get("user", "admin"), login_mode=d.get("login_mode"),
                     outputs={k: v.encode("latin-1") for k, v in d.get("outputs", {}).items()},
                     secret=d.get("secret"), nl=d.get("nl", "\r\n").encode(), banner=d.get("banner", ""),
                     refuse=[tuple(x) for x in d.get("refuse", [])], ignore=[tuple(x) for x in d.get("ignore", [])],
@@ -654,9 +722,56 @@ def _first_sc(sc):
     return f
 
 
+# ------------------------------------------------------------------------------------------------
+# with-block form (round 9): op ["with", [inner ops]] = `with drv as d: <inner ops>` / `async with drv as d: <inner ops>`.
+# Observed: ["ok", [d is drv, inner observations, inner errors]] when the block was entered and left without an exception,
+# ["exc", type name, stage (enter | body | exit), inner observations, inner errors] otherwise; an exception of __enter__ /
+# __exit__ is recorded in "errors" like that of any operation (type, message class, explicit cause chain).  A failing inner
+# operation is recorded and the body goes on (the caller catches it inside the block), so that the block is left normally.
+# ------------------------------------------------------------------------------------------------
+def _run_with(drv, op, obs, errs):
+    idx, sub, sub_errs, st, alive = len(obs), [], [], ["enter", None], True
+    try:
+        with drv as d:
+            st[0], st[1] = "body", d is drv
+            alive = _run_ops(drv, op[1], sub, sub_errs)
+            st[0] = "exit"
+    except Starved:
+        obs.append(["exc", "Starved", st[0], sub, sub_errs])
+        return False
+    except Exception as e:  # noqa
+        obs.append(["exc", type(e).__name__, st[0], sub, sub_errs])
+        errs.append([idx] + error_class(e))
+        return alive
+    obs.append(["ok", [st[1], sub, sub_errs]])
+    return alive
+
+
+async def _arun_with(drv, op, obs, errs):
+    idx, sub, sub_errs, st, alive = len(obs), [], [], ["enter", None], True
+    try:
+        async with drv as d:
+            st[0], st[1] = "body", d is drv
+            alive = await _arun_ops(drv, op[1], sub, sub_errs)
+            st[0] = "exit"
+    except Starved:
+        obs.append(["exc", "Starved", st[0], sub, sub_errs])
+        return False
+    except Exception as e:  # noqa
+        obs.append(["exc", type(e).__name__, st[0], sub, sub_errs])
+        errs.append([idx] + error_class(e))
+        return alive
+    obs.append(["ok", [st[1], sub, sub_errs]])
+    return alive
+
+
 def _run_ops(drv, ops, obs, errs):
     """sync: run the operations, -> False when the history ended in Starved"""
     for op in ops:
+        if op[0] == "with":
+            if not _run_with(drv, op, obs, errs):
+                return False
+            continue
         if not _has(drv, op):
             obs.append(["skip", op[0]])
             continue
@@ -674,6 +789,10 @@ def _run_ops(drv, ops, obs, errs):
 
 async def _arun_ops(drv, ops, obs, errs):
     for op in ops:
+        if op[0] == "with":
+            if not await _arun_with(drv, op, obs, errs):
+                return False
+            continue
         if not _has(drv, op):
             obs.append(["skip", op[0]])
             continue
@@ -964,7 +1083,7 @@ def gen_interactive(rng, kind, dev, channel_level=False):
 # class in the twin table) to the families whose scenarios reach it; c06.py searches those families first when the
 # twin-diff obligation of that function breaks.
 FAMILIES = ["interactive", "commands", "and_read", "prompt", "configs", "priv", "lifecycle", "lists", "timeouts", "errors",
-            "ansi", "two_objects"]
+            "ansi", "two_objects", "with_open"]
 _LISTS = ["commands", "lists", "timeouts"]
 _CONFS = ["configs", "lists", "timeouts"]
 FN_FAMILY = {
@@ -978,8 +1097,9 @@ FN_FAMILY = {
     "send_config": _CONFS, "send_configs": _CONFS, "send_configs_from_file": ["lists", "timeouts"], "_abort_config": ["configs", "lists"],
     "_acquire_appropriate_privilege_level": ["priv", "configs", "interactive", "errors"], "_escalate": ["errors", "priv"],
     "_deescalate": ["errors", "priv"], "acquire_priv": ["errors", "priv"], "register_configuration_session": ["priv", "configs"],
-    "open": ["lifecycle", "errors"], "close": ["lifecycle", "errors"], "__init__": ["lifecycle", "two_objects"],
-    "update_privilege_levels": ["two_objects", "priv"], "__enter__": ["lifecycle"], "__exit__": ["lifecycle"],
+    "open": ["lifecycle", "errors", "with_open"], "close": ["lifecycle", "errors", "with_open"], "__init__": ["lifecycle", "two_objects"],
+    "update_privilege_levels": ["two_objects", "priv"], "__enter__": ["with_open", "lifecycle"], "__exit__": ["with_open", "lifecycle"],
+    "channel_authenticate_telnet": ["with_open"],
     "commandeer": ["lifecycle"],
     # the two variants (function / coroutine) of the decorators of scrapli/decorators.py, paired by gen_twins as
     # "decorators:timeout_modifier" / "decorators:timeout_wrapper"
@@ -991,7 +1111,7 @@ def families_of(fn):
     """scenario families for a twin-table function name like 'channel:Channel.send_inputs_interact'"""
     name = fn.split(":", 1)[-1].split(".")[-1]
     if name.endswith("_on_open") or name.endswith("_on_close"):
-        return ["lifecycle", "priv", "errors"]
+        return ["lifecycle", "priv", "errors", "with_open"]
     return list(FN_FAMILY.get(name, FAMILIES))
 
 
@@ -1603,10 +1723,113 @@ def gen_two_objects_scenario(rng, kind=None):
             "fault": None, "family": "two_objects", "first": first, "ops": ops}
 
 
+# ------------------------------------------------------------------------------------------------
+# family "with_open" (round 9): the CONTEXT-MANAGER form of opening — `with drv:` / `async with drv:` (op ["with", body]) —
+# against every way the open inside __enter__ / __aenter__ can fail, and the healthy case:
+#   login      in-band telnet login (auth_bypass off; DialogDevice login): right / wrong / empty password or wrong user against a
+#              device that re-asks for ever (=> the channel gives up with ScrapliAuthenticationFailed), or that hangs after
+#              the user name / the password with the operation timeout armed;
+#   transport  the transport's open() raises (OpenFaultMixin): ScrapliAuthenticationFailed (what the ssh transports raise for
+#              refused credentials), ScrapliConnectionNotOpened, ScrapliConnectionError, ScrapliTimeout, OSError,
+#              ConnectionRefusedError; every open or only the first one (a later re-open / second with-block succeeds);
+#   escalation the platform's own (or an escalating) on_open fails to authenticate to privilege_exec: gen_error_scenario mode auth;
+#   on_open    failing user hooks on_open x on_close: gen_error_scenario mode on_open;
+#   timeout    the device hangs on a session set-up line of on_open with timeout_ops armed;
+#   healthy    nothing fails (the block is entered; a failing operation inside it; __exit__ closes).
+# After the block: 1-3 of get_prompt / send_command / open / close / a second with-block.  Compared like every error path:
+# exception type + message class + explicit cause chain of what __enter__ / __exit__ raised, bytes written, transport open or
+# closed, isalive, cached privilege level, and what the later operations do.
+# ------------------------------------------------------------------------------------------------
+WITH_CAUSES = ["login", "login", "login", "transport", "transport", "transport", "escalation", "escalation", "on_open", "on_open",
+               "timeout", "healthy"]
+
+
+def _with_form(ops):
+    """[open, a, b, close|open, ...] -> [[with, [a, b]], ...]: the leading open and what follows it up to the next close / open
+    become one with-block"""
+    k = 1
+    while k < len(ops) and ops[k][0] not in ("open", "close", "with"):
+        k += 1
+    return [["with", ops[1:k]]] + ops[k:]
+
+
+def gen_with_scenario(rng, kind=None):
+    kind = kind or rng.choice(ERR_KINDS)
+    cause = rng.choice(WITH_CAUSES)
+    if kind == "generic" and cause == "escalation":
+        cause = "on_open"
+    if kind not in AUTH_LINE and cause == "escalation":
+        cause = "transport"
+    if cause in ("escalation", "on_open", "timeout"):
+        sc = gen_error_scenario(rng, kind, mode="auth" if cause == "escalation" else "on_open")
+        dev, kw = sc["device"], sc["driver_kwargs"]
+        if cause == "escalation":
+            # the failure has to be inside open: the platform's on_open escalates (the bare network driver gets a hook that does)
+            if kind == "network":
+                kw["on_open"] = "escalate"
+            elif kind != "juniper_junos" and rng.random() < 0.8:
+                kw.pop("on_open", None)
+        if cause == "timeout":
+            kw["timeout_ops"] = rng.choice([0.35, 2.1, 20.1])
+            dev["mute"] = [["*", l] for l in SETUP_LINES[:6]]
+            if kind in ("generic", "network"):
+                kw["on_open"] = rng.choice(["cmd", "cmd_then_raise"])
+            else:
+                kw.pop("on_open", None)
+        ops = sc["ops"]
+    else:
+        outputs = {c: rng.choice(OUTPUTS) for c in rng.sample(SHOW, rng.randint(1, 2))}
+        cmds = list(outputs)
+        dev = {"host": rng.choice(["router1", "r1", "core-sw.lab"]), "outputs": outputs, "nl": rng.choice(["\r\n", "\r\n", "\n"])}
+        kw = {"timeout_ops": rng.choice(ERR_TIMEOUTS)}
+        if kind in ENABLE:
+            dev["login_mode"] = rng.choice(["exec", "privilege_exec", "privilege_exec"])
+        sc = {"kind": kind, "device": dev, "driver_kwargs": kw, "policy": gen_policy(rng) if rng.random() < 0.6 else ["whole"],
+              "fault": None}
+        if cause == "login":
+            pw = rng.choice(["pw", "pw", "bad", "bad", "bad", ""])
+            user = rng.choice(["admin", "admin", "admin", "nobody"])
+            dev["login"] = {"password": "pw"}
+            r = rng.random()
+            # the asyncio login loop sleeps 0.1 s per iteration (committed difference "auth read polling") while a scripted
+            # sync read costs no time: the in-band login runs without an operation timeout or with one far beyond
+            # 0.1 s x the number of reads of the dialogue, so that only a HANGING login ends in the timeout
+            kw["timeout_ops"] = rng.choice([0, 200.1, 200.1])
+            if r < 0.25:
+                dev["login"]["hang"] = rng.choice(["user", "password"])
+                kw["timeout_ops"] = 200.1
+            kw.update(auth_bypass=False, auth_username=user, auth_password=pw)
+            if rng.random() < 0.3:
+                dev["motd"] = rng.choice(["\r\nUser Access Verification\r\n\r\n", "Welcome\r\n"])
+        elif cause == "transport":
+            sc["fault"] = {"open_exc": rng.choice(OPEN_EXC)}
+            if rng.random() < 0.5:
+                sc["fault"]["open_fails"] = 1
+        if rng.random() < 0.3:
+            kw["on_close"] = rng.choice(["raise_value", "raise_own", "cmd", "none"])
+        ops = [["open"]]
+        for _ in range(rng.choice([1, 1, 2])):
+            ops.append(rng.choice([["get_prompt"], ["send_command", rng.choice(cmds), {}], ["send_command", "bogus line", {}]] + (
+                [["acquire_priv", rng.choice(PRIVS[kind])], ["send_configs", [rng.choice(CONF)], {}]] if kind != "generic" else [])))
+    cmds = list(sc["device"]["outputs"]) or SHOW
+    ops = _with_form(ops)
+    # later with-blocks: the same object is entered again after a failed / a finished block
+    out = [ops[0]]
+    for op in ops[1:]:
+        out.append(["with", [["get_prompt"]]] if (op[0] == "open" and rng.random() < 0.5) else op)
+    for _ in range(rng.choice([0, 1, 1, 2])):
+        out.append(rng.choice([["get_prompt"], ["send_command", rng.choice(cmds), {}], ["open"], ["close"],
+                               ["with", [["send_command", rng.choice(cmds), {}]]], ["with", []]]))
+    sc.update(family="with_open", ops=out, with_open={"cause": cause})
+    return sc
+
+
 def gen_scenario(rng, kind=None, faulty=None, family=None):
     """family: one of FAMILIES -> most operations of the scenario come from that family"""
     if family == "errors":
         return gen_error_scenario(rng, kind)
+    if family == "with_open":
+        return gen_with_scenario(rng, kind)
     if family == "and_read" and rng.random() < 0.8:
         return gen_and_read_scenario(rng, kind)
     if family == "ansi":
@@ -1806,6 +2029,30 @@ def corpus():
                             "driver_kwargs": {}, "policy": ["esccut", k, after], "fault": None, "family": "ansi",
                             "ops": [["open"], ["send_command", "show version", {}], ["send_command", "show clock", {"strip_prompt": False}],
                                     ["get_prompt"]]})
+    # with-block form of the open failures: refused in-band login, failing transport open, failing escalation in on_open,
+    # failing user hook, set-up line that hangs with the timeout armed, healthy; then the object is used / entered again
+    for kind in ("generic", "cisco_iosxe", "network", "juniper_junos"):
+        tail = [["get_prompt"], ["with", [["get_prompt"]]]]
+        for pw in ("pw", "bad"):
+            out.append({"kind": kind, "device": {"outputs": dict(outs), "login": {"password": "pw"}},
+                        "driver_kwargs": {"timeout_ops": 200.1, "auth_bypass": False, "auth_username": "admin", "auth_password": pw},
+                        "policy": ["bytes", 3], "fault": None, "family": "with_open", "with_open": {"cause": "login"},
+                        "ops": [["with", [["send_command", "show clock", {}]]]] + tail})
+        for exc in OPEN_EXC:
+            out.append({"kind": kind, "device": {"outputs": dict(outs)}, "driver_kwargs": {"timeout_ops": 2.1}, "policy": ["whole"],
+                        "fault": {"open_exc": exc, "open_fails": 1}, "family": "with_open", "with_open": {"cause": "transport"},
+                        "ops": [["with", [["get_prompt"]]]] + tail})
+        for h in ("raise_own", "raise_scrapli", "cmd"):
+            out.append({"kind": kind, "device": {"outputs": dict(outs), "mute": [["*", "terminal length 0"]]},
+                        "driver_kwargs": {"timeout_ops": 2.1, "on_open": h}, "policy": ["whole"], "fault": None, "family": "with_open",
+                        "with_open": {"cause": "on_open"}, "ops": [["with", [["get_prompt"]]]] + tail})
+        if kind in ("cisco_iosxe", "network"):
+            for extra in ({}, {"auth_attempts": 1}, {"auth_hang": "wrong"}):
+                out.append({"kind": kind, "device": dict({"login_mode": "exec", "secret": "s3cr3t", "outputs": dict(outs)}, **extra),
+                            "driver_kwargs": dict({"timeout_ops": 2.1, "auth_secondary": "wrong"},
+                                                  **({"on_open": "escalate"} if kind == "network" else {})),
+                            "policy": ["whole"], "fault": None, "family": "with_open", "with_open": {"cause": "escalation"},
+                            "ops": [["with", [["get_prompt"]]]] + tail})
     # two objects of each platform driver: a default level of the first edited in place, then the second constructed and used
     for kind in TWO_KINDS:
         top = "configuration"
